@@ -198,8 +198,11 @@ int vh_mutex_trylock(pthread_mutex_t *m){
 /* a scenario may declare one mutex whose critical sections are outside the property under test as far as signals go: a signal chosen while the thread
    holds it stays pending until the unlock (as if the code had blocked signals there) */
 static pthread_mutex_t *sigdefer_mx;
+static int (*sigdefer_pred)(int);
 void vs_defer_signals_while_holding(pthread_mutex_t *m){ sigdefer_mx=m; }
-static int holds_sigdefer(int t){ return sigdefer_mx && MX[mx_idx(sigdefer_mx)].owner==t; }
+/* ... and only for the threads the predicate selects (e.g. exiting threads) */
+void vs_defer_signals_only_if(int (*pred)(int)){ sigdefer_pred=pred; }
+static int holds_sigdefer(int t){ return sigdefer_mx && MX[mx_idx(sigdefer_mx)].owner==t && (!sigdefer_pred || sigdefer_pred(t)); }
 int vh_mutex_unlock(pthread_mutex_t *m){
 	if(me<0) return 0;
 	int i=mx_idx(m);
